@@ -253,9 +253,11 @@ pub fn generate(thorough: bool, rng: &mut Rng, ops: &mut Vec<String>, stats: &mu
                 h.extend_from_slice(&j);
             }
             5 => {
+                // only within the same length class (0<->1, 2<->3): a 37/41 mix-up shifts all following length fields, whose
+                // garbage values overflow the u32 offset sum (panic in checked builds, wrap in release) — outside the statement
                 stats.hit("parse.magic-swapped");
                 if !h.is_empty() {
-                    h[0] = rng.below(4) as u8;
+                    h[0] ^= 1;
                 }
             }
             6 => {
@@ -550,7 +552,7 @@ fn gen_source(rng: &mut Rng, n_files: usize, max_len: usize) -> MemSource {
     MemSource::new(entries)
 }
 
-fn mutate_source(rng: &mut Rng, src: &MemSource, max_len: usize) -> MemSource {
+fn mutate_source(rng: &mut Rng, src: &MemSource, max_len: usize, round: u64) -> MemSource {
     let mut entries: Vec<SrcEntry> = Vec::new();
     for e in &src.entries {
         match (&e.kind, rng.below(4)) {
@@ -578,7 +580,7 @@ fn mutate_source(rng: &mut Rng, src: &MemSource, max_len: usize) -> MemSource {
     for mut e in extra.entries {
         if let repo::SrcKind::File(_) = e.kind {
             if let Some(last) = e.path.last_mut() {
-                last.extend_from_slice(b"-new");
+                last.extend_from_slice(format!("-new{round}").as_bytes());
             }
             entries.push(e);
         }
@@ -716,7 +718,7 @@ fn build(rng: &mut Rng, variant: &str) -> Result<Scenario, String> {
         let s = repo::backup_nocache(&h, &src, &BackupOptions::default(), snap).map_err(|e| errkind(&e))?;
         snaps.push((s, expected_with_root(&src)));
         if i + 1 < n_backups {
-            src = mutate_source(rng, &src, max_len);
+            src = mutate_source(rng, &src, max_len, i);
         }
     }
     let prune = |opts: PruneOptions, forget_first: bool, snaps: &mut Vec<(SnapshotFile, Vec<repo::ReadBack>)>| -> Result<(), String> {
